@@ -143,11 +143,15 @@ def _m_view(it, x, *shape):
     return t_reshape(x, *shape)
 
 
-def _m_new_zeros(it, x, shape, requires_grad=False, **kw):
-    if isinstance(shape, (list, tuple)):
-        shape = tuple(shape)
+def _m_new_zeros(it, x, *shape, requires_grad=False, **kw):
+    if 'size' in kw:
+        shape = (kw.pop('size'),)
+    if len(shape) == 1 and isinstance(shape[0], (list, tuple)):
+        shape = tuple(shape[0])
     else:
-        shape = (shape,)
+        shape = tuple(shape)
+    if kw.get('dtype') is not None:
+        return t_zeros(shape, dtype=kw['dtype'], kind='torch', requires_grad=requires_grad)
     return t_zeros(shape, dtype=x.meta.get('dtype', DT_IN), kind='torch', requires_grad=requires_grad)
 
 
@@ -169,8 +173,16 @@ def _m_np_transpose(it, x, *perm):
     return t_permute(x, list(perm))
 
 
+def _note_cast(x, dt):
+    """dtype ghost: data of the INPUT dtype forced into a fixed narrower float type loses precision for float64 callers"""
+    src = x.meta.get('dtype', DT_IN)
+    if isinstance(dt, DType) and dt.name in ('float32', 'float16', 'bfloat16') and not (src == dt) and CUR.ctx is not None:
+        CUR.ctx.notes.append(('dtype-mismatch', 'data tagged %r cast to the fixed type %r (precision of a float64 input is lost)' % (src, dt)))
+
+
 def _m_to_dtype(dt):
     def f(it, x):
+        _note_cast(x, dt)
         t = fresh_like(x.shape, x.snap(), x)
         t.meta['dtype'] = dt
         return t
@@ -356,6 +368,7 @@ def _m_to(it, x, *a, **kw):
             dt = q.meta.get('dtype', DT_IN)
     if dt is None:
         return x                      # device moves only
+    _note_cast(x, dt)
     t = fresh_like(x.shape, x.snap(), x)
     t.meta['dtype'] = dt
     return t
@@ -383,6 +396,12 @@ def _torch_full(shape, fill, dtype=None, device=None, requires_grad=False):
 
 
 TMETH = {
+    'clamp': lambda it, x, min=None, max=None: _t_clamp(x, min, max),
+    'clamp_min': lambda it, x, min: _t_clamp(x, min, None),
+    'clamp_max': lambda it, x, max: _t_clamp(x, None, max),
+    'unbind': lambda it, x, dim=0: t_unbind(x, dim),
+    'select': lambda it, x, dim, index: tget(x, tuple([slice(None)] * _dims(x, dim) + [index])),
+    'index_select': lambda it, x, dim, index: t_index_select(x, dim, index),
     'permute': lambda it, x, *p: t_permute(x, [q % x.ndim for q in (p[0] if len(p) == 1 and isinstance(p[0], (list, tuple)) else p)]),
     'unsqueeze': _m_unsqueeze, 'squeeze': _m_squeeze,
     'flip': lambda it, x, *d: t_flip(x, d[0] if len(d) == 1 else list(d)),
@@ -412,10 +431,36 @@ TMETH = {
     'size': lambda it, x, d=None: x.shape if d is None else x.shape[d],
     'float': _m_to_dtype(F32),
     'double': _m_to_dtype(F64),
+    'half': _m_to_dtype(DType('float16')), 'bfloat16': _m_to_dtype(DType('bfloat16')),
     'detach': lambda it, x: x,
     'mean': lambda it, x, dim=None, keepdim=False: _t_reduce(x, dim, keepdim, True),
     'sum': lambda it, x, dim=None, keepdim=False: _t_reduce(x, dim, keepdim, False),
 }
+
+
+def _t_clamp(x, lo, hi):
+    """elementwise clamp: representable in term mode only (piecewise, not linear)"""
+    xs = x.snap()
+
+    def bound(v):
+        if isinstance(v, STensor):
+            raise Unsupported('clamp with tensor bounds')
+        return None if v is None else TV.of(Fr(v) if isinstance(v, float) else v)
+    lo_, hi_ = bound(lo), bound(hi)
+
+    def elem(idx):
+        v = xs(idx)
+        if not isinstance(v, TV):
+            raise Unsupported('clamp of data is non-linear (not representable in kernel mode)')
+        e, d = v.e, v.d
+        if lo_ is not None:
+            c = e < lo_.e
+            e, d = z3.If(c, lo_.e, e), (z3.If(c, 0, d) if d is not None else None)
+        if hi_ is not None:
+            c = e > hi_.e
+            e, d = z3.If(c, hi_.e, e), (z3.If(c, 0, d) if d is not None else None)
+        return TV(e, d)
+    return fresh_like(x.shape, elem, x)
 
 
 def _t_reduce(x, dim, keepdim, mean):
@@ -750,7 +795,7 @@ def setup_namespaces():
         'Tensor': TY_TENSOR, 'cat': t_cat, 'stack': t_stack, 'unbind': t_unbind,
         'index_select': t_index_select, 'tensor': _torch_tensor, 'zeros': _torch_zeros,
         'zeros_like': _torch_zeros_like, 'reshape': _torch_reshape, 'Size': _torch_size,
-        'float': F32, 'double': F64, 'float32': F32, 'float64': F64,
+        'float': F32, 'double': F64, 'float32': F32, 'float64': F64, 'half': DType('float16'), 'float16': DType('float16'), 'bfloat16': DType('bfloat16'),
         'get_default_dtype': lambda: DT_DEFAULT,
         'sqrt': _torch_sqrt, 'abs': _unary_unsupported('torch.abs'),
         'flip': lambda x, dims: t_flip(x, dims), 'roll': lambda x, shifts, dims=None: t_roll(x, shifts, dims),
@@ -762,6 +807,7 @@ def setup_namespaces():
         'add': lambda a, b: t_bin('+', a, b), 'sub': lambda a, b: t_bin('-', a, b), 'mul': lambda a, b: t_bin('*', a, b),
         'div': lambda a, b: t_bin('/', a, b), 'neg': lambda a: t_bin('*', a, -1),
         'is_tensor': lambda v: isinstance(v, STensor),
+        'clamp': lambda x, min=None, max=None: _t_clamp(x, min, max),
         'autograd': NS('torch.autograd', {'Function': __import__('cbv.interp', fromlist=['x']).TY_FUNCTION}),
     })
     TORCH_NS.d['nn'] = NS('torch.nn', {'Parameter': lambda t, requires_grad=True: t.with_meta(param=True),
@@ -913,9 +959,11 @@ def _list(v=()):
     raise Unsupported('list(%r)' % (v,))
 
 
-def _dict(v=()):
+def _dict(v=(), **kw):
     if isinstance(v, dict):
-        return dict(v)
+        return dict(v, **kw)
+    if isinstance(v, (list, tuple)) and all(isinstance(q, (list, tuple)) and len(q) == 2 for q in v):
+        return dict([tuple(q) for q in v], **kw)
     hook = CURHOOK.get('dict')
     if hook:
         return hook(v)
@@ -990,6 +1038,7 @@ def builtins(it):
          'zip': lambda *a: list(zip(*a)), 'dict': _dict, 'int': lambda v: v, 'float': lambda v: v,
          'str': str, 'max': _minmax(False), 'min': _minmax(True), 'abs': _abs, 'print': lambda *a, **k: None,
          'True': True, 'False': False, 'None': None,
+         'slice': slice, 'Ellipsis': Ellipsis, 'id': id, 'type': lambda v: type(v), 'map': lambda f, *xs: [it.call_value(f, list(a), {}) for a in zip(*xs)],
          'enumerate': lambda xs, start=0: [(start + k, v) for k, v in enumerate(_list(xs) if not isinstance(xs, (list, tuple)) else xs)],
          'reversed': lambda xs: list(reversed(_list(xs) if not isinstance(xs, (list, tuple)) else list(xs))),
          'sum': _sum(it), 'any': _anyall(True), 'all': _anyall(False), 'bool': _truth,
